@@ -4,6 +4,7 @@ SPECIFICATION ISpec
 CONSTANTS MaxItems = 2
  MaxSub = 0
  MaxBlocks = 0
+ MaxDepth = 1
  Budget = 2
  IdOffs <- IdOffs3
  Rules = {"assume", "implies_intr", "implies_elim", "substitution", "theorem", "sorry", "", "subproof", "verif_gap1"}
